@@ -909,4 +909,144 @@ Section Opt.
           -- right. rewrite upd_length by exact Hbh1. lia.
           -- left. apply in_or_app. right. exact X.
   Qed.
+  (* ---- lo->n_ins = buf ? linecount(buf) : 0 *)
+  Definition set_nins (lo : lopt) (x : nat) : lopt :=
+    {| pos := pos lo; n_ins := x; n_del := n_del lo; del := del lo; ins := ins lo; seq := seq lo |}.
+  Lemma lc_le (t : list N) : forall b, (IoDefs.linecount_aux b t <= length t + (if b then 1 else 0))%nat.
+  Proof.
+    induction t as [|c t IH]; intro b; cbn [IoDefs.linecount_aux length]; [destruct b; lia|].
+    destruct (IoDefs.is_nl c); [specialize (IH false)|specialize (IH true)]; cbn iota in IH; destruct b; lia.
+  Qed.
+  Lemma opt_nins_ok (m : mem) bl (blk : block) bh (h0 : block) lb lo (bufv : val) buf (pv ndv : val) c0 c1 c2 c3 c4 c5 c6 c7 c8 (l5 l6 l7 : val) rest :
+    let u := length (hist lb) in
+    urep T m bl blk bh (R9 h0 u [c0; c1; c2; c3; c4; c5; c6; c7; c8]) (push lb lo) -> (9 * u + 9 <= length h0)%nat ->
+    bufarg m bl bh bufv buf -> (linecount buf < fuel)%nat ->
+    let r' := [c0; c1; c2; VInt (Z.of_nat (linecount buf)); c4; c5; c6; c7; c8] in
+    let m' := upd m bh (R9 h0 u r') in
+    exec cx fuel (SSeq sG rest) (mkst [VPtr bl 0; bufv; pv; ndv; VPtr bh (Z.of_nat (9 * u)); l5; l6; l7] m)
+    = exec cx fuel rest (mkst [VPtr bl 0; bufv; pv; ndv; VPtr bh (Z.of_nat (9 * u)); l5; l6; l7] m') /\
+    urep T m' bl blk bh (R9 h0 u r') (push lb (set_nins lo (linecount buf))) /\
+    sframe bl bh m m' (ent_blocks (R9 h0 u [c0; c1; c2; c3; c4; c5; c6; c7; c8]) u) (ent_blocks (R9 h0 u r') u).
+  Proof.
+    intros u R Hlen Hbuf Hfu r' m'. pose proof R as [Hb L I Cn Rn Cq Ch Csz Cnn Cu Cz Cl Rg Hh Hl He Ho Ht].
+    set (r := [c0; c1; c2; c3; c4; c5; c6; c7; c8]) in *.
+    pose proof (rec_ent T m bl blk bh h0 lb lo r R) as E. fold u in E.
+    destruct (ent_rep_R9_inv m h0 u _ _ _ _ _ _ _ _ _ lo Hlen E) as (S0 & S1 & E2 & E3 & E4 & E5 & E6 & E7 & E8a & E8b & E8c & E8d).
+    assert (Lr9 : length (R9 h0 u r) = length h0) by (apply R9_length; unfold r; cbn [length]; lia).
+    assert (Hi : i31 (linecount buf)).
+    { destruct buf as [t|]; [|unfold i31; cbn; lia]. destruct Hbuf as (bb & s & o & _ & _ & _ & Ho' & Hm & -> & _).
+      rewrite <- linecount_models. unfold IoDefs.linecount. pose proof (lc_le (skipn o s) false). rewrite skipn_length in H. unfold i31. lia. }
+    assert (Eb : ent_blocks (R9 h0 u r') u = ent_blocks (R9 h0 u r) u) by (unfold r, r'; rewrite !ent_blocks_R9 by exact Hlen; reflexivity).
+    split; [|apply (push_cells T m m bl blk bh h0 lb lo (set_nins lo (linecount buf)) r r' TF R Hlen eq_refl eq_refl (le_n _)); try reflexivity].
+    - unfold sG at 1, opt_t7, opt_t6, opt_t5, opt_t4, opt_t3, opt_t2, opt_t1, opt_rest3, opt_rest2, opt_rest1, opt_body; cbn [fn_body cf_lbuf_opt].
+      destruct buf as [t|].
+      + destruct Hbuf as (bb & s & o & -> & Hs & Hn & Ho' & Hm & -> & N1 & N2). xstep.
+        unfold cx at 1. rewrite (callx_mono ext _ _ _ _ _ _ _ (TrLbufLines.tr_linecount m bb s o (S d) fuel Hs Hn Ho' Hm ltac:(rewrite linecount_models; exact Hfu))).
+        xstep. rewrite linecount_models. rewrite wrap_I32_id by (unfold i31 in Hi; lia).
+        rewrite (fld_store m bh (R9 h0 u r) (9 * u + 3)) by (try exact Hh; try lia; rewrite Lr9; lia). xstep.
+        rewrite upd_R9 by (try reflexivity; lia). unfold r. cbn [upd firstn skipn app]. reflexivity.
+      + cbn [bufarg] in Hbuf. subst bufv. xstep.
+        rewrite (fld_store m bh (R9 h0 u r) (9 * u + 3)) by (try exact Hh; try lia; rewrite Lr9; lia). xstep.
+        rewrite upd_R9 by (try reflexivity; lia). unfold r. cbn [upd firstn skipn app]. reflexivity.
+    - intro KE. unfold r in KE. rewrite ent_blocks_R9 in KE by exact Hlen.
+      unfold r'. apply ent_rep_R9; cbn [set_nins ins del pos n_ins n_del seq]; try assumption; try reflexivity.
+      + apply (sown_keeps m _ _ _ S0). intros b Hb0. apply KE. apply in_or_app. left. exact Hb0.
+      + apply (sown_keeps m _ _ _ S1). intros b Hb0. apply KE. apply in_or_app. right. apply in_or_app. left. exact Hb0.
+      + apply (mark_cells_keeps m _ _ _ E7). intros b Hb0. apply KE. apply in_or_app. right. apply in_or_app. right. exact Hb0.
+      + repeat (split; [assumption|]). assumption.
+    - fold u. rewrite Eb. apply (rec_nodup T m bl blk bh h0 lb lo r R).
+    - fold u. intros b Hb0. left. rewrite <- Eb. exact Hb0.
+  Qed.
+  (* ---- lo->ins = buf ? uc_dup(buf) : NULL *)
+  Definition set_ins (lo : lopt) (x : option (list N)) : lopt :=
+    {| pos := pos lo; n_ins := n_ins lo; n_del := n_del lo; del := del lo; ins := x; seq := seq lo |}.
+  Lemma opt_ins_ok (m : mem) bl (blk : block) bh (h0 : block) lb lo (bufv : val) buf (pv ndv : val) c1 c2 c3 c4 c5 c6 c7 c8 (l5 l6 l7 : val) rest :
+    let u := length (hist lb) in
+    urep T m bl blk bh (R9 h0 u [VInt 0; c1; c2; c3; c4; c5; c6; c7; c8]) (push lb lo) -> (9 * u + 9 <= length h0)%nat ->
+    bufarg m bl bh bufv buf ->
+    exists (m' : mem) c0,
+    exec cx fuel (SSeq sH rest) (mkst [VPtr bl 0; bufv; pv; ndv; VPtr bh (Z.of_nat (9 * u)); l5; l6; l7] m)
+    = exec cx fuel rest (mkst [VPtr bl 0; bufv; pv; ndv; VPtr bh (Z.of_nat (9 * u)); l5; l6; l7] m') /\
+    urep T m' bl blk bh (R9 h0 u [c0; c1; c2; c3; c4; c5; c6; c7; c8]) (push lb (set_ins lo buf)) /\
+    sframe bl bh m m' (ent_blocks (R9 h0 u [VInt 0; c1; c2; c3; c4; c5; c6; c7; c8]) u) (ent_blocks (R9 h0 u [c0; c1; c2; c3; c4; c5; c6; c7; c8]) u).
+  Proof.
+    intros u R Hlen Hbuf. pose proof R as [Hb L I Cn Rn Cq Ch Csz Cnn Cu Cz Cl Rg Hh Hl He Ho Ht].
+    set (r := [VInt 0; c1; c2; c3; c4; c5; c6; c7; c8]) in *.
+    assert (Hbh : (bh < length m)%nat) by (apply nth_error_Some; congruence).
+    assert (Lr9 : length (R9 h0 u r) = length h0) by (apply R9_length; unfold r; cbn [length]; lia).
+    pose proof (rec_ent T m bl blk bh h0 lb lo r R) as E. fold u in E.
+    destruct (ent_rep_R9_inv m h0 u _ _ _ _ _ _ _ _ _ lo Hlen E) as (S0 & S1 & E2 & E3 & E4 & E5 & E6 & E7 & E8a & E8b & E8c & E8d).
+    pose proof (rec_nodup T m bl blk bh h0 lb lo r R) as Nd. fold u in Nd.
+    assert (Ebr : ent_blocks (R9 h0 u r) u = ptr_block c1 ++ ptr_block c7 ++ ptr_block c8) by (unfold r; rewrite ent_blocks_R9 by exact Hlen; reflexivity).
+    unfold sH at 1, opt_t8, opt_t7, opt_t6, opt_t5, opt_t4, opt_t3, opt_t2, opt_t1, opt_rest3, opt_rest2, opt_rest1, opt_body; cbn [fn_body cf_lbuf_opt].
+    destruct buf as [t|].
+    - destruct Hbuf as (bb & s & o & -> & Hs & Hn & Ho' & Hm & -> & N1 & N2).
+      set (m1 := m ++ [cstr_block (zb (skipn o s))]). set (r' := [VPtr (length m) 0; c1; c2; c3; c4; c5; c6; c7; c8]).
+      assert (Lm1 : length m1 = S (length m)) by (unfold m1; rewrite app_length; cbn [length]; lia).
+      assert (Ebr' : ent_blocks (R9 h0 u r') u = length m :: ent_blocks (R9 h0 u r) u) by (unfold r'; rewrite ent_blocks_R9 by exact Hlen; rewrite Ebr; reflexivity).
+      assert (Hnew : ~ In (length m) (ent_blocks (R9 h0 u r) u)).
+      { intro X. pose proof (ent_blocks_live m (R9 h0 u r) u lo _ E X). lia. }
+      exists (upd m1 bh (R9 h0 u r')), (VPtr (length m) 0). split.
+      + xstep. unfold cx at 1. rewrite (callx_mono ext _ _ _ _ _ _ _ (tr_uc_dup m bb s o (S (S d)) fuel Hs Hn Ho' Hm)). xstep. fold m1.
+        rewrite (fld_store m1 bh (R9 h0 u r) (9 * u)) by (try lia; try (rewrite Lr9; lia); unfold m1; rewrite nth_error_app_old by exact Hbh; exact Hh). xstep.
+        replace (9 * u)%nat with (9 * u + 0)%nat at 2 by lia. rewrite upd_R9 by (try reflexivity; lia). unfold r. cbn [upd firstn skipn app]. reflexivity.
+      + fold r'. apply (push_cells T m m1 bl blk bh h0 lb lo (set_ins lo (Some (skipn o s))) r r' TF R Hlen eq_refl eq_refl); fold u.
+        * lia.
+        * intros b Hb0. unfold m1. apply nth_error_app_old. exact Hb0.
+        * intro KE. rewrite Ebr in KE. unfold r'. apply ent_rep_R9; cbn [set_ins ins del pos n_ins n_del seq]; try assumption; try reflexivity.
+          -- cbn [sown]. split; [apply Forall_skipn'; exact Hn|]. exists (length m). split; [reflexivity|].
+             exists (cstr_block (zb (skipn o s))). split; [rewrite mem_upd_other by (rewrite ?Lm1; lia); unfold m1; apply nth_error_app_new|].
+             split; [lia|]. cbn [Z.to_nat skipn]. apply firstn_all2. rewrite cstr_block_len. lia.
+          -- apply (sown_keeps m _ _ _ S1). intros b Hb0. apply KE. apply in_or_app. left. exact Hb0.
+          -- apply (mark_cells_keeps m _ _ _ E7). intros b Hb0. apply KE. apply in_or_app. right. exact Hb0.
+          -- repeat (split; [assumption|]). assumption.
+        * rewrite Ebr'. constructor; assumption.
+        * intros b Hb0. rewrite Ebr' in Hb0. destruct Hb0 as [<-|X]; [right; lia|left; exact X].
+    - cbn [bufarg] in Hbuf. subst bufv. exists (upd m bh (R9 h0 u r)), (VInt 0). split.
+      + xstep. rewrite (fld_store m bh (R9 h0 u r) (9 * u)) by (try exact Hh; try lia; rewrite Lr9; lia). xstep.
+        replace (9 * u)%nat with (9 * u + 0)%nat at 2 by lia. rewrite upd_R9 by (try reflexivity; lia). unfold r. cbn [upd firstn skipn app]. reflexivity.
+      + fold r.
+        apply (push_cells T m m bl blk bh h0 lb lo (set_ins lo None) r r TF R Hlen eq_refl eq_refl (le_n _)); fold u; try reflexivity.
+        * intro KE. rewrite Ebr in KE. unfold r. apply ent_rep_R9; cbn [set_ins ins del pos n_ins n_del seq]; try assumption; try reflexivity.
+          -- apply (sown_keeps m _ _ _ S1). intros b Hb0. apply KE. apply in_or_app. left. exact Hb0.
+          -- apply (mark_cells_keeps m _ _ _ E7). intros b Hb0. apply KE. apply in_or_app. right. exact Hb0.
+          -- repeat (split; [assumption|]). assumption.
+        * exact Nd.
+        * intros b Hb0. left. exact Hb0.
+  Qed.
+
+  (* ---- lo->seq = lb->useq *)
+  Definition set_seq (lo : lopt) (x : Z) : lopt :=
+    {| pos := pos lo; n_ins := n_ins lo; n_del := n_del lo; del := del lo; ins := ins lo; seq := x |}.
+  Lemma opt_seq_ok (m : mem) bl (blk : block) bh (h0 : block) lb lo (bufv pv ndv : val) c0 c1 c2 c3 c4 c5 c6 c7 c8 (l5 l6 l7 : val) rest :
+    let u := length (hist lb) in
+    urep T m bl blk bh (R9 h0 u [c0; c1; c2; c3; c4; c5; c6; c7; c8]) (push lb lo) -> (9 * u + 9 <= length h0)%nat ->
+    let r' := [c0; c1; c2; c3; c4; c5; VInt (useq lb); c7; c8] in
+    let m' := upd m bh (R9 h0 u r') in
+    exec cx fuel (SSeq sI rest) (mkst [VPtr bl 0; bufv; pv; ndv; VPtr bh (Z.of_nat (9 * u)); l5; l6; l7] m)
+    = exec cx fuel rest (mkst [VPtr bl 0; bufv; pv; ndv; VPtr bh (Z.of_nat (9 * u)); l5; l6; l7] m') /\
+    urep T m' bl blk bh (R9 h0 u r') (push lb (set_seq lo (useq lb))) /\
+    sframe bl bh m m' (ent_blocks (R9 h0 u [c0; c1; c2; c3; c4; c5; c6; c7; c8]) u) (ent_blocks (R9 h0 u r') u).
+  Proof.
+    intros u R Hlen r' m'. pose proof R as [Hb L I Cn Rn Cq Ch Csz Cnn Cu Cz Cl Rg Hh Hl He Ho Ht]. destruct Rg as (Rq & _).
+    set (r := [c0; c1; c2; c3; c4; c5; c6; c7; c8]) in *.
+    assert (Lr9 : length (R9 h0 u r) = length h0) by (apply R9_length; unfold r; cbn [length]; lia).
+    pose proof (rec_ent T m bl blk bh h0 lb lo r R) as E. fold u in E.
+    destruct (ent_rep_R9_inv m h0 u _ _ _ _ _ _ _ _ _ lo Hlen E) as (S0 & S1 & E2 & E3 & E4 & E5 & E6 & E7 & E8a & E8b & E8c & E8d).
+    assert (Eb : ent_blocks (R9 h0 u r') u = ent_blocks (R9 h0 u r) u) by (unfold r, r'; rewrite !ent_blocks_R9 by exact Hlen; reflexivity).
+    assert (Nlh : bl <> bh) by (intro X; subst; unfold owned in Ho; inversion Ho as [|? ? Hn _]; apply Hn; left; reflexivity).
+    split; [|apply (push_cells T m m bl blk bh h0 lb lo (set_seq lo (useq lb)) r r' TF R Hlen eq_refl eq_refl (le_n _)); fold u; try reflexivity].
+    - unfold sI at 1, opt_t9, opt_t8, opt_t7, opt_t6, opt_t5, opt_t4, opt_t3, opt_t2, opt_t1, opt_rest3, opt_rest2, opt_rest1, opt_body; cbn [fn_body cf_lbuf_opt].
+      xstep. cbn [push useq] in Cq. xfld Hb Cq. rewrite !(wrap_I32_id (useq lb)) by exact Rq.
+      rewrite (fld_store m bh (R9 h0 u r) (9 * u + 6)) by (try exact Hh; try lia; rewrite Lr9; lia). xstep.
+      rewrite upd_R9 by (try reflexivity; lia). unfold r. cbn [upd firstn skipn app]. reflexivity.
+    - intro KE. unfold r in KE. rewrite ent_blocks_R9 in KE by exact Hlen.
+      unfold r'. apply ent_rep_R9; cbn [set_seq ins del pos n_ins n_del seq]; try assumption; try reflexivity.
+      + apply (sown_keeps m _ _ _ S0). intros b Hb0. apply KE. apply in_or_app. left. exact Hb0.
+      + apply (sown_keeps m _ _ _ S1). intros b Hb0. apply KE. apply in_or_app. right. apply in_or_app. left. exact Hb0.
+      + apply (mark_cells_keeps m _ _ _ E7). intros b Hb0. apply KE. apply in_or_app. right. apply in_or_app. right. exact Hb0.
+      + repeat (split; [assumption|]). exact Rq.
+    - rewrite Eb. apply (rec_nodup T m bl blk bh h0 lb lo r R).
+    - intros b Hb0. left. rewrite <- Eb. exact Hb0.
+  Qed.
 End Opt.
